@@ -33,10 +33,15 @@ class Fault(Exception):
     pass
 
 
+class RunnerDied(BaseException):
+    pass
+
+
 KINDS = list(H.KINDS) + ["raw"]
 WORKER = st.fixed_dictionaries({
     "tests": st.lists(st.sampled_from(KINDS), max_size=3),
     "raise_after": st.one_of(st.none(), st.none(), st.none(), st.integers(0, 3)),
+    "base": st.sampled_from([False] * 5 + [True]),      # the runner breaks with a non-Exception error
 })
 
 
@@ -132,7 +137,7 @@ def execute(spec, schedule=None):
                 if stop:
                     return
                 if self.w["raise_after"] == i:
-                    raise RuntimeError("runner %d broke" % self.wid)
+                    raise (RunnerDied if self.w.get("base") else RuntimeError)("runner %d broke" % self.wid)
                 tid = "w%d.t%d" % (self.wid, i)
                 worker_log.append((self.wid, "test", tid, kind))
                 if kind == "raw":
@@ -141,7 +146,7 @@ def execute(spec, schedule=None):
                 else:
                     testtools.PlaceHolder(tid, outcome=H.METHOD[kind]).run(result)
             if self.w["raise_after"] is not None and self.w["raise_after"] >= len(self.w["tests"]):
-                raise RuntimeError("runner %d broke" % self.wid)
+                raise (RunnerDied if self.w.get("base") else RuntimeError)("runner %d broke" % self.wid)
             sched.yield_point("worker.shouldStop")
             aborted_before = state["aborted"]
             worker_log.append((self.wid, "shouldStop", bool(result.shouldStop), aborted_before))
@@ -199,7 +204,7 @@ def execute(spec, schedule=None):
     finally:
         ts.threading, ts.Queue = saved
     for t in sched.tasks:
-        if t.error is not None and not isinstance(t.error, Fault):
+        if t.error is not None and not isinstance(t.error, (Fault, RunnerDied)):
             if t.name == "main":
                 raise HarnessError("main task raised %r" % (t.error,))
             # a worker thread died with an exception that _run_test did not contain
@@ -238,7 +243,7 @@ def execute(spec, schedule=None):
     if state["run_exc"] is None and not vs:
         for w in workers:
             ran = [e for e in worker_log if e[0] == w.wid and e[1] == "test"]
-            broke = w.w["raise_after"] is not None and not any(e[0] == w.wid and e[1] == "shouldStop" and e[2] for e in worker_log)
+            broke = w.w["raise_after"] is not None and not w.w.get("base") and not any(e[0] == w.wid and e[1] == "shouldStop" and e[2] for e in worker_log)
             if stream:
                 code = "r%d" % w.wid
                 mine = [s for s in caller.inner.statuses() if s["route_code"] == code]
@@ -280,7 +285,7 @@ def execute(spec, schedule=None):
                 elif open_ != e[1].id():
                     vs.append(V("one-at-a-time", "outcome-outside", "outcome for %s while %r was open" % (e[1].id(), open_)))
                     break
-            nbroke = sum(1 for w in workers if w.w["raise_after"] is not None and not any(
+            nbroke = sum(1 for w in workers if w.w["raise_after"] is not None and not w.w.get("base") and not any(
                 e[0] == w.wid and e[1] == "shouldStop" and e[2] for e in worker_log))
             got_broken = sum(1 for e in evs if e[0] == "addError" and e[1].id().startswith("broken-runner"))
             if got_broken != nbroke:
